@@ -176,6 +176,10 @@ def effects(tier, variant=0):
         rs = {"r1": {0: red("D", eff("task")), 1: red("D", eff("fn"))}}
         progs = [{"c1": [D(1), D(2), O("close"), O("stop"), O("metrics")], "c2": [O("stop")]}]
         return _i("eff4", progs, {1: 0, 2: 1}, cap=2, red_script=rs, max_tasks=2)
+    if variant == 5:          # several effects of one action, one of them a follow-up action, around shutdown
+        rs = {"r1": {0: red("D", eff("act", 9)), 1: red("D")}, "r2": {0: red("D", eff("task")), 1: red("D")}}
+        progs = [{"c1": [D(1), O("get_state")], "c2": [O("stop"), O("metrics")]}]
+        return _i("eff5", progs, {1: 0, 9: 1}, cap=2, reducers=("r1", "r2"), red_script=rs, max_tasks=2)
     if variant == 3:          # tasks and thunks handed over by a client while the store is running
         progs = [{"c1": [D(1), O("stop"), O("get_state")], "c2": [O("task"), TH(3)]}]
         return _i("eff3", progs, {1: 0, 3: 1}, cap=2, red_script={"r1": {0: red("D", eff("task")), 1: red("D")}}, max_tasks=3)
@@ -190,7 +194,8 @@ def middleware(tier, n=2):
     star = {"before_reduce": {0: "*", 1: "*"}, "before_effect": {0: "*", 1: "*"}, "before_dispatch": {0: "*", 1: "*"}}
     mws = tuple("m%d" % i for i in range(1, n + 1))
     ms = {m: star for m in mws}
-    rs = {"r1": {0: red("D", eff("task")), 1: red("D", eff("fn"))}, "r2": {0: red("D", eff("task")), 1: red("D")}}
+    # the last reducer answers Keep (with a changed state) for kind 1: the hooks must still see the state after it
+    rs = {"r1": {0: red("D", eff("task")), 1: red("D", eff("fn"))}, "r2": {0: red("D", eff("task")), 1: red("K")}}
     progs = [{"c1": [S("add_sub", "s1"), D(1)] + ([D(2)] if tier != "quick" or n == 1 else []) + STOP}]
     return _i("mw%d" % n, progs, {1: 0, 2: 1}, cap=2, mws=mws, mw_script=ms, mw_verdicts=("C", "D", "B", "E"),
               mw_remove={"m1": {0: "first"}}, reducers=("r1", "r2"), red_script=rs, subs={"s1": {"kind": "direct"}},
@@ -417,10 +422,11 @@ def table(pid, tier):
                  free=[(a, 100 if q else 1500), (b, 100 if q else 1500)])
     elif pid == "C04":
         vs = [0, 1, 6] if q else [0, 1, 2, 6]
-        insts = [stop_race(tier, "block", v) for v in vs] + ([] if q else [stop_race(tier, "latest", 0), stop_race(tier, "oldest", 0)])
+        insts = [stop_race(tier, "block", v) for v in vs] + [stop_race(tier, "latest", 0)] + \
+            ([] if q else [stop_race(tier, "oldest", 0)])
         inv = ["C04_Barrier", "C04_ErrNeverReduced", "C10_Flush"]
-        T = dict(mc=[(i, inv, ["C04_Final"]) for i in insts], gen=[(i, 600 if q else 10000) for i in insts[:3]],
-                 free=[(i, 60 if q else 500) for i in insts], live=[(insts[0], ["Live_ClientsDone", "Live_StopReturns"])])
+        T = dict(mc=[(i, inv, ["C04_Final"]) for i in insts], gen=[(i, 450 if q else 10000) for i in insts[:4]],
+                 free=[(i, 50 if q else 500) for i in insts], live=[(insts[0], ["Live_ClientsDone", "Live_StopReturns"])])
     elif pid == "C05":
         insts = [burst(tier, "block", 1)] + ([] if q else [burst(tier, "block", 2)])
         inv = ["C05_Bound", "C05_NoLoss", "C01_ExactlyOnce"]
@@ -455,9 +461,10 @@ def table(pid, tier):
         T = dict(mc=[(i, inv, []) for i in insts], gen=[(i, 700 if q else 10000) for i in insts[:3]],
                  free=[(i, 60 if q else 500) for i in insts])
     elif pid == "C11":
-        insts = [effects(tier, 0), effects(tier, 4), effects(tier, 1), effects(tier, 3)] + ([] if q else [effects(tier, 2)])
+        insts = [effects(tier, 0), effects(tier, 4), effects(tier, 5), effects(tier, 1), effects(tier, 3)] + \
+            ([] if q else [effects(tier, 2)])
         inv = ["C11_AtMostOnce", "C11_Once", "C11_Worker", "C11_Followup", "C11_Once_strict"]
-        T = dict(mc=[(i, inv, ["C11_QuietAfterStop"]) for i in insts], gen=[(i, 700 if q else 10000) for i in insts[:3]],
+        T = dict(mc=[(i, inv, ["C11_QuietAfterStop"]) for i in insts], gen=[(i, 500 if q else 10000) for i in insts[:4]],
                  free=[(i, 80 if q else 500) for i in insts])
     elif pid == "C12":
         insts = [middleware(tier, 1), middleware(tier, 2)] + ([] if q else [middleware(tier, 3)])
